@@ -122,10 +122,10 @@ Lemma stage_ok_inv : forall e ps ds ks e' needed,
                    /\ lastc e' = lastc e /\ since_trans e' = since_trans e).
 Proof.
   intros e ps ds ks e' needed. unfold stage.
-  destruct (ro e) eqn:RO; [intros X; inversion X|].
   destruct (Nat.eqb (List.length ps) (List.length ds)) eqn:LEN; cbn [negb]; [|intros X; inversion X].
   apply Nat.eqb_eq in LEN.
   destruct ps as [|p ps]; [intros X; inversion X; subst; left; auto|].
+  destruct (ro e) eqn:RO; [intros X; inversion X|].
   destruct (since_stage e) eqn:SS; cbn [negb]; [|intros X; inversion X].
   destruct (over_limit fixed (maxc e) (lastc e) (List.length (p :: ps))) eqn:OL; [intros X; inversion X|].
   destruct (stage_loop H (mxsize e) (dfiles (dsk e)) (sto e) (combine (p :: ps) ds)
@@ -237,18 +237,17 @@ Lemma stage_keeps_flag_false : forall e ps ds ks,
   since_stage e = false -> since_stage (fst (stage H fixed e ps ds ks)) = false.
 Proof.
   intros e ps ds ks F. unfold stage.
-  destruct (ro e); [exact F|].
   destruct (negb (Nat.eqb (List.length ps) (List.length ds))); [exact F|].
-  destruct ps; [exact F|]. rewrite F. cbn. exact F.
+  destruct ps; [exact F|]. destruct (ro e); [exact F|]. rewrite F. cbn. exact F.
 Qed.
 
 Lemma stage_keeps_trans_flag : forall e ps ds ks,
   since_trans (fst (stage H fixed e ps ds ks)) = since_trans e.
 Proof.
   intros e ps ds ks. unfold stage.
-  destruct (ro e); [reflexivity|].
   destruct (negb (Nat.eqb (List.length ps) (List.length ds))); [reflexivity|].
   destruct ps; [reflexivity|].
+  destruct (ro e); [reflexivity|].
   destruct (negb (since_stage e)); [reflexivity|].
   destruct (over_limit fixed (maxc e) (lastc e) (List.length (p :: ps))); [reflexivity|].
   destruct (stage_loop H (mxsize e) (dfiles (dsk e)) (sto e) (combine (p :: ps) ds)
@@ -332,9 +331,9 @@ Lemma stage_consumes_flag : forall e ps ds ks,
   ps <> [] -> List.length ps = List.length ds -> ro e = false ->
   since_stage (fst (stage H fixed e ps ds ks)) = false.
 Proof.
-  intros e ps ds ks NE LEN RO. unfold stage. rewrite RO.
+  intros e ps ds ks NE LEN RO. unfold stage.
   apply Nat.eqb_eq in LEN. rewrite LEN. cbn [negb].
-  destruct ps as [|p ps]; [congruence|].
+  destruct ps as [|p ps]; [congruence|]. rewrite RO.
   destruct (since_stage e) eqn:F; cbn [negb]; [|exact F].
   destruct (over_limit fixed (maxc e) (lastc e) (List.length (p :: ps))); [reflexivity|].
   destruct (stage_loop H (mxsize e) (dfiles (dsk e)) (sto e) (combine (p :: ps) ds)
@@ -346,9 +345,9 @@ Lemma stage_refused_without_scan : forall e ps ds ks,
   snd (stage H fixed e ps ds ks) = StErr ENoScan \/ snd (stage H fixed e ps ds ks) = StErr EReadOnly.
 Proof.
   intros e ps ds ks NE LEN F. unfold stage.
-  destruct (ro e); [right; reflexivity|].
   apply Nat.eqb_eq in LEN. rewrite LEN. cbn [negb].
-  destruct ps; [congruence|]. rewrite F. left; reflexivity.
+  destruct ps; [congruence|].
+  destruct (ro e); [right; reflexivity|]. rewrite F. left; reflexivity.
 Qed.
 
 Lemma ro_step : forall e o, ro (fst (step H fixed e o)) = ro e.
@@ -356,9 +355,10 @@ Proof.
   intros e o. destruct o as [ok|ps ds ks|cs|chs env|d]; cbn [step].
   - unfold scan. destruct (negb ok); [reflexivity|].
     destruct (maxc e <? dcount (dsk e))%N; reflexivity.
-  - unfold stage. destruct (ro e) eqn:R; [cbn; exact R|].
-    destruct (negb (Nat.eqb (List.length ps) (List.length ds))); [cbn; exact R|].
-    destruct ps; [cbn; exact R|].
+  - unfold stage.
+    destruct (negb (Nat.eqb (List.length ps) (List.length ds))); [reflexivity|].
+    destruct ps; [reflexivity|].
+    destruct (ro e) eqn:R; [cbn; exact R|].
     destruct (negb (since_stage e)); [cbn; exact R|].
     destruct (over_limit fixed (maxc e) (lastc e) (List.length (p :: ps))); [cbn; exact R|].
     destruct (stage_loop H (mxsize e) (dfiles (dsk e)) (sto e) (combine (p :: ps) ds)
@@ -383,9 +383,10 @@ Proof.
   intros e o. destruct o as [ok|ps ds ks|cs|chs env|d]; cbn [step].
   - unfold scan. destruct (negb ok); [reflexivity|].
     destruct (maxc e <? dcount (dsk e))%N; reflexivity.
-  - unfold stage. destruct (ro e); [reflexivity|].
+  - unfold stage.
     destruct (negb (Nat.eqb (List.length ps) (List.length ds))); [reflexivity|].
     destruct ps; [reflexivity|].
+    destruct (ro e); [reflexivity|].
     destruct (negb (since_stage e)); [reflexivity|].
     destruct (over_limit fixed (maxc e) (lastc e) (List.length (p :: ps))); [reflexivity|].
     destruct (stage_loop H (mxsize e) (dfiles (dsk e)) (sto e) (combine (p :: ps) ds)
@@ -417,9 +418,10 @@ Proof.
   intros e o OK. destruct o as [ok|ps ds ks|cs|chs env|d]; cbn [step].
   - unfold scan. destruct (negb ok); [exact OK|].
     destruct (maxc e <? dcount (dsk e))%N; exact OK.
-  - unfold stage. destruct (ro e); [exact OK|].
+  - unfold stage.
     destruct (negb (Nat.eqb (List.length ps) (List.length ds))); [exact OK|].
     destruct ps; [exact OK|].
+    destruct (ro e); [exact OK|].
     destruct (negb (since_stage e)); [exact OK|].
     destruct (over_limit fixed (maxc e) (lastc e) (List.length (p :: ps))); [exact OK|].
     destruct (stage_loop H (mxsize e) (dfiles (dsk e)) (sto e) (combine (p :: ps) ds)
@@ -452,7 +454,8 @@ Lemma guards_stage : forall e ps1 ds1 ks1 mid ps2 ds2 ks2,
 Proof.
   intros e ps1 ds1 ks1 mid ps2 ds2 ks2 NS NE1 L1 NE2 L2 e1.
   destruct (ro e) eqn:RO.
-  - right. unfold stage. subst e1. rewrite ro_run, RO. reflexivity.
+  - right. unfold stage. apply Nat.eqb_eq in L2. rewrite L2. cbn [negb].
+    destruct ps2; [congruence|]. subst e1. rewrite ro_run, RO. reflexivity.
   - apply stage_refused_without_scan; auto.
     subst e1. rewrite run_state_cons. apply run_no_scan_stage_flag; [exact NS|].
     cbn [step]. pose proof (stage_consumes_flag e ps1 ds1 ks1 NE1 L1 RO) as X.
@@ -819,9 +822,9 @@ Proof.
     destruct r as [x|needed].
     + split; [reflexivity|].
       unfold stage in S.
-      destruct (ro e); [inversion S; subst; repeat split; auto|].
       destruct (negb (Nat.eqb (List.length ps) (List.length ds))); [inversion S; subst; repeat split; auto|].
       destruct ps as [|p ps]; [inversion S|].
+      destruct (ro e); [inversion S; subst; repeat split; auto|].
       destruct (negb (since_stage e)); [inversion S; subst; repeat split; auto|].
       destruct (over_limit true (maxc e) (lastc e) (List.length (p :: ps)));
         [inversion S; subst; repeat split; auto|].
@@ -840,9 +843,9 @@ Proof.
            rewrite (is_subseq_complete _ _ (select_subseq _ m (p :: ps))). cbn [andb].
            pose proof (stage_loop_align e _ _ _ _ _ DW (fun p0 d0 C => or_introl C) SL) as A.
            rewrite map_fst_combine in A by exact LEN. exact A.
-        -- unfold stage in S0. rewrite RO in S0.
+        -- unfold stage in S0.
            apply Nat.eqb_eq in LEN. rewrite LEN in S0. cbn [negb] in S0.
-           destruct ps as [|p ps]; [congruence|]. rewrite SS, OL, SL in S0. cbn [negb] in S0.
+           destruct ps as [|p ps]; [congruence|]. rewrite RO, SS, OL, SL in S0. cbn [negb] in S0.
            inversion S0; subst. repeat split; auto; cbn.
            eapply stage_loop_store_ok; eauto.
   - (* supply *)
